@@ -12,8 +12,15 @@ EXPLANATION = (
     'private helpers), TS-HANDLE (every mutation of a block token list is followed on all normal paths by a rebuild / '
     're-handling of that block), TS-DETACH (removed ranges have their handles cleared over exactly that range), LEN '
     '(_len updated exactly once per splice path with inserted-removed; removed count matches the removed slice), '
-    'OWN-STORE (bookkeeping fields are written only in token_store.py). It does NOT decide the index arithmetic of '
-    'get_prev/get_next/iter/get_index, the split/merge thresholds, or equality with a reference list over histories.')
+    'OWN-STORE (bookkeeping fields are written only in token_store.py), TS-GATE (the already-in-a-store gate of _splice), '
+    'NAV-FORM (index arithmetic of get_prev/get_next/iter/get_index/insert_* against the handle model), BUILD-PART '
+    '(_build_blocks partitions its input). TS-SEQ: _splice with its helpers inlined is evaluated symbolically (an AST '
+    'interpreter over symbolic token sequences and linear forms, every size test forked) on stores of 1..4 blocks (1..7 in the '
+    'thorough tier) for every placement of the replaced range: at return the concatenated block contents equal what a list '
+    'would hold, block indexes and store back-pointers are consistent, every block has fresh handles and size caches, and '
+    '_len moved by inserted - removed -- one step of the history induction, for every block layout of that size. It does NOT '
+    'decide the split/merge thresholds themselves (any load factor is sound for the sequence semantics) or the text of '
+    'positions (C08).')
 
 
 def run(ctx: RuleContext, p: Program) -> None:
@@ -27,6 +34,8 @@ def run(ctx: RuleContext, p: Program) -> None:
     from . import storeforms
     ctx.try_rule(storeforms.rule_nav_form, ts, 'NAV-FORM')
     ctx.try_rule(storeforms.rule_build_part, ts, 'BUILD-PART')
+    from . import tsseq
+    ctx.try_rule(tsseq.rule_ts_seq, ts, "TS-SEQ", 4 if ctx.tier == "quick" else 7)
     ctx.not_decided += ['arithmetic of get_prev/get_next/iter/get_index/get_position',
                         'split / merge thresholds', 'agreement with a reference list over operation histories']
     ctx.assumptions += ['_update_block_indexes(k) re-indexes blocks k.. (its loop shape is checked, its argument is not)',
